@@ -93,6 +93,29 @@ def run(ctx, drv):
         if call(shared.compare, ss[0], ss[0]) != 0:
             ctx.fail("not-irreflexive", {"sol": list(ss[0].objectives)}, call(shared.compare, ss[0], ss[0]), 0, "core.ParetoDominance.compare")
     ctx.count("transitivity_triples", ntr)
+    # directions re-declared on a problem that has already been used in comparisons (the declaration is read at comparison time)
+    nre = 2000 if ctx.quick() else 20000
+    for _ in range(nre):
+        n = rng.randrange(1, 5)
+        constrained = rng.random() < 0.3
+        dirs = tuple(rng.random() < 0.5 for _ in range(n))
+        p = mk_problem(n, dirs, constrained)
+        dom = rng.choice([shared, default_dom, C.ParetoDominance()])
+        for round_ in range(3):
+            sa = mk_sol(p, [float(rng.randrange(3)) for _ in range(n)], float(rng.randrange(2)) if constrained else 0.0)
+            sb = mk_sol(p, [float(rng.randrange(3)) for _ in range(n)], float(rng.randrange(2)) if constrained else 0.0)
+            r = call(dom.compare, sa, sb)
+            exp = plat.expected_cmp(constrained, dirs, sa, sb)
+            if r != exp:
+                ctx.fail("wrong-answer", {"constrained": constrained, "maximise": list(dirs), "a": list(sa.objectives), "cv_a": sa.constraint_violation,
+                                          "b": list(sb.objectives), "cv_b": sb.constraint_violation,
+                                          "instance": f"directions re-declared {round_} time(s) on this problem object after earlier comparisons"},
+                         r, exp, "core.ParetoDominance.compare")
+                break
+            dirs = tuple((not d) if rng.random() < 0.5 else d for d in dirs)
+            plat.declare_directions(p, dirs, rng.randrange(8))
+        ctx.case(("redeclared", n, dirs, constrained), True)
+    ctx.count("redeclared_direction_rounds", nre)
 
     if drv.ok:
         out = drv.batch(reqs)
